@@ -217,7 +217,10 @@ fn short_decimal(rng: &mut Rng, emin: i32, emax: i32) -> f64 {
 fn gen_f64(rng: &mut Rng, finite: bool) -> f64 {
     loop {
         if rng.chance(1, 8) { let x = short_decimal(rng, -323, 308); if x.is_finite() { return x; } }
-        let x = match rng.below(6) { 0 => *rng.pick(&[0.0, -0.0, 1.0, -1.5, 1e21, 1e-7, f64::MAX, f64::MIN_POSITIVE, 5e-324, 0.1, 1e16]), 1 if !finite => *rng.pick(&[f64::NAN, f64::INFINITY, f64::NEG_INFINITY]), _ => f64::from_bits(rng.next()) };
+        // doubles that are exactly a single (widened f32 data), doubles with few mantissa bits
+        if rng.chance(1, 8) { let x = f64::from(gen_f32(rng, true)); return if rng.chance(1, 4) { x * 3.0 } else { x }; }
+        if rng.chance(1, 16) { let x = f64::from_bits(rng.next() & !((1u64 << rng.below(52)) - 1)); if x.is_finite() { return x; } }
+        let x = match rng.below(6) { 0 => *rng.pick(&[0.0, -0.0, 1.0, -1.5, 1e21, 1e-7, f64::MAX, f64::MIN_POSITIVE, 5e-324, 0.1, 1e16, 0.10000000149011612, 0.3333333432674408, f64::EPSILON]), 1 if !finite => *rng.pick(&[f64::NAN, f64::INFINITY, f64::NEG_INFINITY]), _ => f64::from_bits(rng.next()) };
         if !finite || x.is_finite() { return x; }
     }
 }
@@ -378,7 +381,7 @@ pub fn exec(rest: &str, out: &mut Out) -> (String, bool) {
             match json_syntax::to_value(&d) { Ok(v) => (format!("ok {}", show_value(&v)), true), Err(e) => (show_ser_err(&e), true) }
         }
         ("rt", _) | ("de", _) | ("fromvalm", _) | ("fromobj", _) => crate::probe::exec(&a, out),
-        ("sj", 2) => {
+        ("sj", 2) | ("sj", 3) => {
             let v = match parse_value(a[1]) { Some(v) => v, None => return ("bad-op".into(), false) };
             // json-syntax -> serde_json -> json-syntax
             let nonfinite = has_nonfinite(&v);
@@ -409,6 +412,35 @@ pub fn exec(rest: &str, out: &mut Out) -> (String, bool) {
         }
         _ => ("bad-op".into(), false),
     }
+}
+/// The float leg of the number conversion, evaluated on the DEPENDENCIES alone (std's correctly
+/// rounded `str::parse::<f64>`, `serde_json::Number::from_f64` and its `Display`) for every number of
+/// `v` that is not a `u64` / `i64` literal: `text=printed` (`!` = no serde_json number). The model's
+/// integer dispatch and structure handling stay its own.
+pub fn sj_table(v: &Value) -> String {
+    fn walk(v: &Value, acc: &mut Vec<String>) {
+        match v {
+            Value::Number(n) => {
+                let t = n.as_str();
+                if t.parse::<u64>().is_err() && t.parse::<i64>().is_err() {
+                    let r = t.parse::<f64>().ok().and_then(serde_json::Number::from_f64).map(|x| x.to_string());
+                    let e = format!("{}={}", cps_inner(t), r.map_or("!".to_string(), |x| cps_inner(&x)));
+                    if !acc.contains(&e) { acc.push(e); }
+                }
+            }
+            Value::Array(a) => a.iter().for_each(|x| walk(x, acc)),
+            Value::Object(o) => o.entries().iter().for_each(|e| walk(&e.value, acc)),
+            _ => (),
+        }
+    }
+    let mut acc = Vec::new();
+    walk(v, &mut acc);
+    if acc.is_empty() { "-".into() } else { acc.join(",") }
+}
+pub fn sj_request(v: &Value) -> String { format!("serde sj {} {}", show_value(v), sj_table(v)) }
+/// the same from a value in line notation
+fn sj_line(notation: &str) -> String {
+    match parse_value(notation) { Some(v) => sj_request(&v), None => format!("serde sj {}", notation) }
 }
 fn has_token_key(v: &Value) -> bool {
     match v {
@@ -488,8 +520,8 @@ pub fn gen(out: &mut Out, thorough: bool, focus: &str) {
     }
     // C18
     for nn in ["0", "-0", "18446744073709551615", "-9223372036854775808", "18446744073709551616", "-0.0", "0.0", "5e-324", "1.7976931348623157e308", "1e400", "-1e400", "2.2250738585072014e-308", "1e-400", "0.1", "1e5"] {
-        l(format!("serde sj #{};", cps_inner(nn)), out);
-        l(format!("serde sj [#{};]", cps_inner(nn)), out);
+        l(sj_line(&format!("#{};", cps_inner(nn))), out);
+        l(sj_line(&format!("[#{};]", cps_inner(nn))), out);
     }
     // serde_json numbers at the edges of its three representations, alone and nested
     {
@@ -510,9 +542,22 @@ pub fn gen(out: &mut Out, thorough: bool, focus: &str) {
             }
         }
     }
+    // plain decimals of every shape: every fraction length up to 44 x every count of zeros after the
+    // point (a conversion with a fast path keyed on the digit count or on a power-of-ten table is
+    // decided at one such shape), with and without integer digits
+    for frac in 1..=(if thorough { 60usize } else { 44 }) {
+        for zeros in 0..frac {
+            for rep in 0..(if thorough { 6 } else { 2 }) {
+                let sig = frac - zeros;
+                let nn = crate::canon::plain_decimal(&mut out.rng, if rep % 2 == 0 { 0 } else { 1 + (zeros + rep) % 3 }, zeros, sig);
+                l(sj_line(&format!("{}#{};{}", if rep == 1 { "[" } else { "" }, cps_inner(&nn), if rep == 1 { "]" } else { "" })), out);
+                out.count("plain_decimal_shapes");
+            }
+        }
+    }
     for i in 0..n {
         let v = if i % 3 == 0 { crate::print::gen_value(&mut out.rng, 0, 3) } else { crate::canon::gen_ijson(&mut out.rng, 0, 3) };
-        l(format!("serde sj {}", show_value(&v)), out);
+        l(sj_request(&v), out);
         // values built FROM serde_json (all three number representations)
         if i % 4 == 0 {
             let f = gen_f64(&mut out.rng, true);
@@ -522,7 +567,7 @@ pub fn gen(out: &mut Out, thorough: bool, focus: &str) {
             let ok = again.as_ref().map_or(false, |x| *x == sj);
             out.cur = format!("serde sj {}", show_value(&v));
             out.oracle(ok, "serde_json -> json-syntax -> serde_json: equal", || format!("{}", sj));
-            l(format!("serde sj {}", show_value(&v)), out);
+            l(sj_request(&v), out);
         }
     }
 }
